@@ -835,6 +835,120 @@ def flow_registry_reentrant(case):
     return {"emitted": canon(e1), "second": canon(e2), "roundtrip": _roundtrip(T.ToolResult, e1), "leaks": leaks(r1, e1)}
 
 
+def flow_file_root(case):
+    """create_file_root / parse_file_root (roots/send_messages.py): path -> Root -> path"""
+    import os as _os
+    from chuk_mcp.protocol.messages.roots import send_messages as R
+
+    out = {}
+    prev = _os.name
+    try:
+        if case.get("os_name"):
+            _os.name = case["os_name"]  # the functions branch on os.name only
+        if "path" in case:
+            r = R.create_file_root(case["path"], case.get("name"))
+            out["root"] = canon(r.model_dump(by_alias=True, exclude_none=True))
+            out["abspath"] = _os.path.abspath(case["path"])
+            out["back"] = _exc(lambda: R.parse_file_root(r))
+        if "uri" in case:
+            def parse():
+                return R.parse_file_root(R.Root.model_validate({"uri": case["uri"]}))
+            out["parsed"] = _exc(parse)
+    finally:
+        _os.name = prev
+    return out
+
+
+def flow_complete_path(case):
+    """complete_file_path / complete_enum_value (completions/send_messages.py) in a scratch directory"""
+    import os as _os
+    import shutil
+    import tempfile
+    from chuk_mcp.protocol.messages.completions import send_messages as C
+
+    d = tempfile.mkdtemp(prefix="verif-complete-")
+    cwd = _os.getcwd()
+    try:
+        for rel in case["files"]:
+            pth = _os.path.join(d, rel)
+            if rel.endswith("/"):
+                _os.makedirs(pth, exist_ok=True)
+            else:
+                _os.makedirs(_os.path.dirname(pth), exist_ok=True)
+                open(pth, "w").close()
+        res = []
+        for q in case["queries"]:
+            cur = q["current"].replace("$D", d)
+            base = q.get("base")
+            base = base.replace("$D", d) if isinstance(base, str) else base
+            if q.get("chdir"):
+                _os.chdir(d)
+            try:
+                got = asyncio.run(C.complete_file_path(cur, base, q.get("extensions"), q.get("max_results", 50)))
+            finally:
+                _os.chdir(cwd)
+            res.append(sorted(x.replace(d, "$D") for x in got))
+        enums = [asyncio.run(C.complete_enum_value(e["current"], e["allowed"], e.get("case_sensitive", False))) for e in case.get("enums", [])]
+        return {"results": res, "enums": enums}
+    finally:
+        shutil.rmtree(d, ignore_errors=True)
+
+
+def flow_elicit_example(case):
+    """the example user-input function of types/elicitation.py behind an ElicitationClient"""
+    import contextlib
+    import io
+    from chuk_mcp.protocol.types import elicitation as E
+
+    buf = io.StringIO()
+    with contextlib.redirect_stdout(buf):
+        data = asyncio.run(E.example_user_input_function(case["message"], copy.deepcopy(case["schema"]), case.get("title")))
+        client = E.ElicitationClient(E.example_user_input_function)
+        resp = asyncio.run(client.handle_elicitation_request(
+            {"jsonrpc": "2.0", "id": 1, "method": "elicitation/create",
+             "params": {"message": case["message"], "schema": copy.deepcopy(case["schema"]), "title": case.get("title")}}))
+        wf = asyncio.run(E.example_elicitation_workflow())
+    return {"data": canon(data), "response": canon(resp), "workflow": wf, "printed_title": ("Title:" in buf.getvalue()),
+            "roundtrip": _roundtrip(E.ElicitationResponse, resp.get("result", {})) if "result" in resp else None}
+
+
+def flow_alias_strategies(case):
+    """`_resolve_type_alias` on annotations that are NOT classes but carry a `__name__` (typing.NewType):
+    the name is looked up in the model's module, the annotation's module, any module.  Host models."""
+    import types
+    import typing
+
+    def module(name, **attrs):
+        m = types.ModuleType(name)
+        for k, v in attrs.items():
+            setattr(m, k, v)
+        sys.modules[name] = m
+        return m
+
+    res = {}
+    for where in ("class-module", "annotation-module", "any-module", "nowhere"):
+        nm = "VerifAlias_" + where.replace("-", "_")
+        alias = typing.Union[int, str]
+        nt = typing.NewType(nm, str)
+        mod_models = module("verif_alias_models_" + where.replace("-", "_"))
+        if where == "class-module":
+            setattr(mod_models, nm, alias)
+        elif where == "annotation-module":
+            other = module("verif_alias_defs_" + where.replace("-", "_"), **{nm: alias})
+            nt.__module__ = other.__name__
+        elif where == "any-module":
+            module("verif_alias_third_" + where.replace("-", "_"), **{nm: alias})
+            nt.__module__ = "verif_no_such_module"
+        ns = {"__annotations__": {"v": nt, "w": typing.Optional[nt]}, "__module__": mod_models.__name__, "w": None}
+        cls = type("VerifAliasProbe", (B.McpPydanticBase,), ns)
+        setattr(mod_models, "VerifAliasProbe", cls)
+        row = []
+        for val in case["values"]:
+            row.append(_exc(lambda: cls.model_validate({"v": val, "w": val}).model_dump(exclude_none=True)))
+        res[where] = row
+    return {"by_place": res}
+
+
 FLOWS = {
     "content-kind": flow_content_kind, "tool-result": flow_tool_result, "registry": flow_registry,
     "elicit-client": flow_elicit_client, "elicit-route": flow_elicit_route, "embedded-bytes": flow_embedded_bytes,
@@ -842,6 +956,10 @@ FLOWS = {
     "roots-manager": flow_roots_manager,
     "completion-provider": flow_completion_provider,
     "registry-reentrant": flow_registry_reentrant,
+    "file-root": flow_file_root,
+    "complete-path": flow_complete_path,
+    "elicit-example": flow_elicit_example,
+    "alias-strategies": flow_alias_strategies,
 }
 
 
